@@ -38,6 +38,7 @@ type FuncReport struct {
 	UsedExtern []string `json:"library_models,omitempty"`
 	Notes      []string `json:"notes,omitempty"`
 	Heaps      []string `json:"heaps_written,omitempty"`
+	TypeInvs   []string `json:"type_invariants_assumed_at_reads,omitempty"`
 	NObl       int      `json:"obligations"`
 	EncodeS    float64  `json:"encode_s"`
 }
@@ -65,6 +66,7 @@ type CheckOpts struct {
 	SMTDir   string
 	OnlyFunc string
 	Verbose  bool
+	Audit    bool
 }
 
 func hasProp(props []string, p string) bool {
@@ -184,8 +186,12 @@ func Check(p *Program, opts CheckOpts) *Report {
 		fr.EncodeS = time.Since(t0).Seconds()
 		fr.Inlined, fr.UsedSpecs, fr.UsedExtern, fr.Notes = r.Inlined, r.UsedSpecs, r.UsedExtern, r.Notes
 		fr.Heaps = r.Heaps
+		fr.TypeInvs = r.TypeInvs
 		for _, u := range r.UsedSpecs {
 			trusted[u] = true
+		}
+		for _, in := range r.Inlined {
+			p.InlinedSomewhere[in] = true
 		}
 		if r.Err != "" {
 			fr.Error = r.Err
@@ -313,6 +319,9 @@ func Check(p *Program, opts CheckOpts) *Report {
 	}
 	wg.Wait()
 	_ = t0
+	if opts.Audit {
+		rep.Obligations = append(rep.Obligations, AuditWriters(p, opts.Prop)...)
+	}
 	for t := range trusted {
 		rep.Trusted = append(rep.Trusted, t)
 	}
